@@ -95,7 +95,49 @@ def factories():
             n.set_right(r)     # a postfix class with its child on the RIGHT when i is even
         return n
 
-    return {"raw": raw, "expr": expr, "dup-ids": dup, "same-id": same, "typed": typed, "typed-odd": typed_odd}
+    class Sized(BinaryTreeNode):
+        """what a user of the node class writes: an augmented tree keeping a value per node up to date
+        by overriding the public setters (and calling super())"""
+
+        def __init__(self, left=None, right=None):
+            self.size = 1
+            self.relinked = 0
+            super().__init__(left, right)
+
+        def set_left(self, child=None, clear_old_child_parent=False):
+            res = super().set_left(child, clear_old_child_parent)
+            self.relinked += 1
+            return res
+
+        def set_right(self, child=None, clear_old_child_parent=False):
+            res = super().set_right(child, clear_old_child_parent)
+            self.relinked += 1
+            return res
+
+    class OnlyLeft(BinaryTreeNode):
+        def set_left(self, child=None, clear_old_child_parent=False):
+            return super().set_left(child, clear_old_child_parent)
+
+    class Keyed(E.MathExpression):
+        """an expression subclass overriding one setter and the side look-up in a behaviour-preserving way"""
+
+        def set_right(self, child=None, clear_old_child_parent=False):
+            return super().set_right(child, clear_old_child_parent)
+
+        def get_side(self, child):
+            return super().get_side(child)
+
+    def sized(l, r, i):
+        return Sized(l, r)
+
+    def mixed(l, r, i):
+        # classes with and without overrides in one tree
+        return (Sized, BinaryTreeNode, OnlyLeft)[i % 3](l, r)
+
+    def keyed(l, r, i):
+        return Keyed(None, l, r)
+
+    return {"raw": raw, "expr": expr, "dup-ids": dup, "same-id": same, "typed": typed, "typed-odd": typed_odd, "sized": sized, "mixed-overrides": mixed, "keyed-expr": keyed}
 
 
 def drive(rec, s, fac):
